@@ -54,7 +54,8 @@ class CallWriteHandler(AbstractWriteHandler):
         # One edge leads to the next op, the other one (marked when the graph was built) to the called label. The
         # order of the edges in the graph says nothing, and the called label may have been merged into another label.
         call_edge = next(e for e in exits if e["call"])
-        next_edge = next((e for e in exits if not e["call"]), call_edge)
+        # A call that is the last op of its routine has no next op: the routine ends when the call returns.
+        next_edge = next((e for e in exits if not e["call"]), None)
         label_id = op.label.id
         called_op = call_edge.target_vertex["op"]
         if isinstance(called_op, SsbLabel):
@@ -62,4 +63,4 @@ class CallWriteHandler(AbstractWriteHandler):
         elif isinstance(called_op, SsbForeignLabel):
             label_id = called_op.label.id
         self.decompiler.write_call(label_id)
-        return next_edge.target_vertex
+        return next_edge.target_vertex if next_edge is not None else None
